@@ -26,7 +26,8 @@ TRUSTED = ["models: TokC (lean/Srctools/Model/TokC.lean, the chunk cursor with P
            "_tokenizer.pyx (Cython twin) control flow is not covered"]
 NOT_MODELLED = ['_tokenizer.pyx control flow', 'non-str chunks (bytes / other objects raise ValueError/TypeError by design: outside the property domain)',
                 'BaseTokenizer token-level push_back/peek (not used by the property)',
-                'number of _next_char calls is not a theorem (checked on the implementation only)']
+                'Keyvalues.parse itself is not modelled: that it raises only KeyValError is searched directly on the implementation',
+                'the index invariant is stated at token boundaries (inside the loops it is the pre/post-condition of each refinement lemma, not a separate small-step theorem)']
 ASSUMPTIONS = ['str.casefold acts character by character (true of CPython: casefold of a string is the concatenation of the casefolds of its characters)',
                'the iterator handed to Tokenizer yields str objects and does not itself raise']
 
@@ -498,7 +499,7 @@ def correspond(ctx, drivers):
 
     # 2. structured random documents
     rng = ctx.rng
-    ndocs = ctx.budget(1200, 12000)
+    ndocs = ctx.budget(900, 12000)
     jobs, meta = [], []
     for _ in range(ndocs):
         noisy, star = rng.random() < 0.3, rng.random() < 0.5
@@ -770,13 +771,16 @@ LEVEL_TEXT = ("Lean theorems about the executable models: the concrete chunk-cur
               "line numbers, _last_was_cr, BOM rule, errors) refines the abstract tokenizer TokA through the view "
               "'characters still to be read' (C03_refine); hence the whole observable stream is the same for every "
               "chunking and for Tokenizer(str) (C03_chunk_indep); fuel length+1 per token and length+2 tokens always "
-              "suffice, for both models (C03_total*); after EOF every further call is EOF (C03_eof_stable*); the cursor "
-              "index never goes below -1 at token boundaries, so the negative-index wrap-around is unreachable (C03_idx_inv). "
-              "Model and implementation are tied by an exhaustive (length<=3 over 16 symbols x 128 option sets x all "
-              "chunkings) and structured-random differential run on every check.")
+              "suffice, for both models (C03_total*); after EOF every further call is EOF (C03_eof_stable*, C03_eof_forever); the "
+              "cursor index never goes below -1 at token boundaries, so the negative-index wrap-around is unreachable "
+              "(C03_idx_inv); a whole run makes at most 2n+1 calls of _next_char for every chunking (C03_steps, potential "
+              "argument). Model and implementation are tied by an exhaustive (length<=3 over 16 symbols x 128 option sets "
+              "x all chunkings) and structured-random differential run on every check, comparing tokens, values, line "
+              "numbers, errors and the number of _next_char calls.")
 LEVEL_NOTE = ("Trusted: Lean kernel + propext/Classical.choice/Quot.sound; tools/gen_tok.py; the correspondence harness. "
-              "The bound on the number of _next_char calls (2n+2) and 'only TokenSyntaxError/KeyValError escapes' are checked "
-              "directly on the implementation, not proved. The Cython twin _tokenizer.pyx is not covered.")
+              "'Only TokenSyntaxError escapes' holds of the model by typing and is checked directly on the implementation; "
+              "'only KeyValError escapes Keyvalues.parse' is searched on the implementation only (one defect fixed, one open "
+              "known finding for single_block=True). The Cython twin _tokenizer.pyx is not covered.")
 TECHNIQUE = "Lean 4 refinement proof (concrete chunk cursor -> abstract list tokenizer), loop by loop by induction on fuel; translator + exhaustive differential correspondence over all chunkings"
 DESIGN_REF = "DESIGN.md section 6, C03 and Appendix A"
 
